@@ -213,9 +213,65 @@ def plan_order(rep: Report, prog: Program) -> None:
     rep.check("R10.5", "_inline_paths:order", okp, "_inline_paths does not map the plan in order (append in a forward loop)", ip.where())
 
 
+def offsets_preserved(rep: Report, prog: Program, resolver: Resolver) -> None:
+    """R10.7: a hop is (scale, offset, unit).  Any code that rebuilds hops from hops must carry
+    the offset position over from the offset it read (possibly transformed), never replace it
+    by something independent of it - that would drop the zero point of a scale."""
+    n = 0
+    for q, fi in prog.functions.items():
+        if fi.module != "conversions":
+            continue
+        for node in ast.walk(fi.node):
+            gens = getattr(node, "generators", None)
+            loops = []
+            if gens and isinstance(node, (ast.ListComp, ast.GeneratorExp)) and len(gens) == 1:
+                loops.append((gens[0].target, gens[0].iter, [node.elt]))
+            elif isinstance(node, ast.For):
+                built = [a.args[0] for a in ast.walk(node) if isinstance(a, ast.Call) and isinstance(a.func, ast.Attribute)
+                         and a.func.attr == "append" and a.args]
+                loops.append((node.target, node.iter, built))
+            for target, it, elts in loops:
+                if not (isinstance(target, ast.Tuple) and len(target.elts) == 3):
+                    continue
+                if not _is_path(prog, resolver, fi, it):
+                    continue
+                off = target.elts[1]
+                for e in elts:
+                    if not (isinstance(e, ast.Tuple) and len(e.elts) == 3):
+                        continue
+                    n += 1
+                    okd = isinstance(off, ast.Name) and off.id != "_" and off.id in names_in(e.elts[1])
+                    rep.check("R10.7", f"{q}:{ast.unparse(e)[:50]}", okd,
+                              f"`{ast.unparse(e)}` rebuilds a hop from `{ast.unparse(target)}` but its offset `{ast.unparse(e.elts[1])}` does not "
+                              "come from the offset that was read: the zero point of a temperature scale is dropped on that route",
+                              fi.where(e))
+    if n == 0:
+        raise AnalysisError("no hop-rebuilding site found in conversions.py (R10.7 anchor moved)")
+
+
+def _is_path(prog: Program, resolver: Resolver, fi, it: ast.AST) -> bool:
+    """Is `it` a list of (number, number, Unit) hops according to mypy?"""
+    t = prog.mypy_type(fi.module, it)
+    if t is None:
+        return False
+    try:
+        from mypy import types as T
+        t = T.get_proper_type(t)
+        if isinstance(t, T.Instance) and t.args:
+            el = T.get_proper_type(t.args[0])
+            if isinstance(el, T.TupleType) and len(el.items) == 3:
+                last = T.get_proper_type(el.items[2])
+                mid = T.get_proper_type(el.items[1])
+                return isinstance(last, T.Instance) and last.type.fullname == "measured.Unit" and not (isinstance(mid, T.Instance) and mid.type.fullname in ("builtins.list", "measured.Unit"))
+    except Exception:
+        return False
+    return False
+
+
 def run(rep: Report) -> None:
     prog = Program()
     resolver = Resolver(prog)
+    rep.rule("R10.7", "hops rebuilt from hops keep the offset that was read (no zero point is dropped while inlining or lifting paths)", floor=1)
     rep.rule("R10.1", "declared zero points and degree ratio give C = K - 273.15, R = 9/5 K, F = R - 459.67 exactly "
              "(literal text as rationals)", floor=4)
     rep.rule("R05.1", "translate stores mutually inverse, correctly oriented ratio and offset (R10.2)", floor=5)
@@ -229,6 +285,7 @@ def run(rep: Report) -> None:
     check_translate(rep, prog, resolver)
     convert_order(rep, prog)
     plan_order(rep, prog)
+    offsets_preserved(rep, prog, resolver)
     from ..quantity_rules import check_comparisons
     check_comparisons(rep, prog, resolver, "R06.2")
     rep.assume("the planner follows the (unique) simple path between two temperature units; comparisons across scales "
